@@ -101,6 +101,14 @@ var (
 	ErrSignatureEmpty = errors.New("signature is empty")
 )
 
+// Validate is what go-header calls on every header received over P2P (subscriber, exchange sessions) before it
+// is verified against a trusted header and stored. Without it the method of the embedded, unsigned Header was
+// promoted, which only checks that a proposer address is present: unsigned and forged headers that hash-link
+// correctly entered the P2P header store of full and light nodes.
+func (sh *SignedHeader) Validate() error {
+	return sh.ValidateBasic()
+}
+
 // ValidateBasic performs basic validation of a signed header.
 func (sh *SignedHeader) ValidateBasic() error {
 	if err := sh.Header.ValidateBasic(); err != nil {
